@@ -100,6 +100,13 @@ def gen_feature_uint(rnd, minsize=1, sizes=None):
 
 def gen_config(rnd, ndst=None, profile='layout'):
     """Returns (yaml_text, info)."""
+    cfg, info = gen_config_tree(rnd, ndst, profile)
+    text = HEADER + yaml.safe_dump(cfg, sort_keys=False, default_flow_style=False)
+    return text, info
+
+
+def gen_config_tree(rnd, ndst=None, profile='layout'):
+    """Returns (configuration node as plain dicts/lists, info)."""
     ndst = ndst or rnd.choice([1, 1, 2, 3])
     native = rnd.random() < 0.6
     tt = {}
@@ -231,8 +238,7 @@ def gen_config(rnd, ndst=None, profile='layout'):
                           'default-data-stream-type-name-definition': rnd.random() < 0.5}
     if opts:
         cfg['options'] = {'code-generation': opts}
-    text = HEADER + yaml.safe_dump(cfg, sort_keys=False, default_flow_style=False)
-    return text, {'ndst': ndst, 'names': names}
+    return cfg, {'ndst': ndst, 'names': names}
 
 
 # ---- argument values ---------------------------------------------------------------------
